@@ -94,9 +94,9 @@ def meta(maxn: int, constrained: bool = True, substs: bool = True, **kw):
 
 NEG = rm.neg
 CONCRETE_POOL = (
-    rm.evar(0), rm.evar(1), rm.svar(0), BOT, rm.sym(0), NEG(BOT), NEG(rm.evar(0)), rm.imp(rm.evar(0), rm.evar(1)),
-    rm.ex(0, rm.evar(0)), rm.app(rm.sym(0), rm.evar(0)), rm.svar(1), rm.ex(1, rm.evar(0)), rm.mu(0, rm.svar(0)),
-    NEG(rm.svar(0)), rm.mu(1, rm.imp(NEG(rm.svar(1)), rm.svar(0))),
+    rm.evar(0), rm.evar(1), rm.svar(0), BOT, rm.sym(0), NEG(BOT), NEG(rm.evar(0)), NEG(rm.svar(0)),
+    rm.imp(rm.evar(0), rm.evar(1)), rm.ex(0, rm.evar(0)), rm.app(rm.sym(0), rm.evar(0)), rm.svar(1), rm.ex(1, rm.evar(0)),
+    rm.mu(0, rm.svar(0)), NEG(rm.svar(1)), rm.mu(1, rm.imp(NEG(rm.svar(1)), rm.svar(0))),
 )
 
 META_POOL = (
